@@ -142,8 +142,8 @@ func c11HTTPRun(e *c11HTTPEnv, c c11HTTPCase) (classes []string, nontrivial bool
 			s.register(w, req)
 		}
 	})
-	if o.Hung {
-		return []string{"hung"}, true, o
+	if o.Hung || o.Inconclusive {
+		return []string{"gave-up-waiting"}, true, o
 	}
 	depth := c11Depth(c, true)
 	classes = append(classes, "depth:"+depth, c.path())
@@ -280,6 +280,9 @@ func FuzzVerif_C11_http(f *testing.F) {
 
 // ---- real loopback server -------------------------------------------------------------------------
 
+// c11ServerWait is how long the client waits for the loopback server (wall clock, hence generous).
+const c11ServerWait = 60 * time.Second
+
 type c11Server struct {
 	srv *httptest.Server
 	api *APIRegServer
@@ -294,8 +297,8 @@ func c11StartServer(e *c11HTTPEnv) *c11Server {
 	s.srv = httptest.NewUnstartedServer(r)
 	s.srv.Config.ErrorLog = golog.New(io.Discard, "", 0) // net/http logs recovered panics here
 	s.srv.Start()
-	s.cl = &http.Client{Timeout: c11h.Bound, Transport: &http.Transport{DisableKeepAlives: true, Proxy: nil,
-		DialContext: (&net.Dialer{Timeout: c11h.Bound}).DialContext}}
+	s.cl = &http.Client{Timeout: c11ServerWait, Transport: &http.Transport{DisableKeepAlives: true, Proxy: nil,
+		DialContext: (&net.Dialer{Timeout: c11ServerWait}).DialContext}}
 	return s
 }
 
@@ -346,8 +349,8 @@ func c11ServerCheck(t vh.Fataler, rec *vh.Rec, e *c11HTTPEnv, s *c11Server, c c1
 	pr.Sender.Take()
 	c11h.Count(rec, c11ServerSub, depth == "logic", vh.Digest(c), c, classes...)
 	if err != nil {
-		if time.Since(start) >= c11h.Bound {
-			rec.Violation(t, "hang:httpserver:"+c.path(), c, "no response from the loopback server within %v: %v", c11h.Bound, err)
+		if time.Since(start) >= c11ServerWait {
+			rec.Violation(t, "hang:httpserver:"+c.path(), c, "no response from the loopback server within %v: %v", c11ServerWait, err)
 			return
 		}
 		rec.Violation(t, "no-status-line:httpserver:"+c.path(), c, "the client got no status line from the loopback server (a handler panic makes net/http close the connection without answering): %v", err)
